@@ -105,7 +105,23 @@ class _FnScan(ast.NodeVisitor):
         return True
 
 
+def set_typed_fields(modnames):
+    """names of class attributes annotated as set / frozenset in the scanned modules (read from source every run)"""
+    out = set()
+    for m in modnames:
+        mod = extract.get_module(m)
+        for node in ast.walk(mod.tree):
+            if isinstance(node, ast.ClassDef):
+                for st in node.body:
+                    if isinstance(st, ast.AnnAssign) and isinstance(st.target, ast.Name):
+                        ann = ast.unparse(st.annotation).replace("typing.", "").replace("builtins.", "")
+                        if ann.lower().startswith(("set[", "frozenset[", "abstractset[")) or ann in ("set", "frozenset"):
+                            out.add(st.target.id)
+    return out
+
+
 def scan_modules(modnames):
+    SET_FIELDS.update(set_typed_fields(modnames))
     sites = []
     for m in modnames:
         mod = extract.get_module(m)
